@@ -76,6 +76,11 @@ class _Stop(BaseException):
     """Unwinds the real run() when the scripted history is exhausted."""
 
 
+class _Fatal(BaseException):
+    """Harness inconsistency detected below run(); BaseException so that run()'s own
+    ``except Exception`` cannot swallow it.  Re-raised as HarnessError by _build."""
+
+
 class _VClock:
     """Stands in for the ``time`` module inside radiodriver / radio_link_statistics."""
 
@@ -117,8 +122,12 @@ class _UsbHandle:
     def read(self, endpoint, size, timeout=None):
         frame, self.frame = self.frame, None
         if frame is None:
-            raise HarnessError('read without write')
-        acked, payload = self.w.transmit(frame)
+            raise _Fatal('read without write')
+        try:
+            acked, payload = self.w.transmit(frame)
+        except Exception as e:  # noqa - a bug in the harness must not be eaten by run()'s except Exception
+            import traceback
+            raise _Fatal('harness bug in transmit: %r\n%s' % (e, traceback.format_exc()))
         if not acked:
             return array.array('B', [0x00])          # dongle: status 0 = no ack, no payload
         return array.array('B', [0x01] + list(payload))
@@ -157,7 +166,7 @@ def _canon(o, depth=0):
     if n in ('Crazyradio', 'RadioLinkStatistics', 'method', 'function', '_VClock'):
         return n
     if depth > 3:
-        raise HarnessError('cannot canonicalise %r' % (o,))
+        raise _Fatal('cannot canonicalise %r' % (o,))
     return (n, tuple(sorted((k, _canon(v, depth + 1)) for k, v in vars(o).items())))
 
 
@@ -252,7 +261,7 @@ class _World:
             raise _Stop()
         c = self.hist[self.pos]
         if c not in options:
-            raise HarnessError('history %r: choice %r at %d not in %r (%s)' % (self.hist, c, self.pos, options, kind))
+            raise _Fatal('history %r: choice %r at %d not in %r (%s)' % (self.hist, c, self.pos, options, kind))
         self.pos += 1
         self.events = []
         return c
@@ -264,7 +273,7 @@ class _World:
         while f is not None and f.f_code is not code:
             f = f.f_back
         if f is None:
-            raise HarnessError('run() frame not found on the stack')
+            raise _Fatal('run() frame not found on the stack')
         loc = dict(f.f_locals)
         loc.pop('self', None)
         if self.main:
@@ -548,8 +557,8 @@ def _build(cfg, hist, verbose=False):
             w.bad('crash:run_returned', 'run() returned although nobody stopped the thread')
         except _Stop:
             pass
-        except HarnessError:
-            raise
+        except _Fatal as e:
+            raise HarnessError(str(e))
         except Exception as e:  # noqa  - the radio thread would die silently: everything after is lost
             w.pending = ('crashed', ())
             w.bad('crash:%s' % type(e).__name__, 'radio thread run() died with %r after %d transmissions; '
